@@ -184,9 +184,12 @@ Proof.
     [OpTranslate (1, 2, 3)%R; OpRotate (rot_z_cs NumR (3 / 5) (4 / 5))%R (Some (1, 1, 1)%R); OpFlip;
      OpSetRef RefLast; OpToO; OpSetRef (RefIdx (-2)); OpSetRef RefMean; OpSetRef RefFirst; OpReset;
      OpRotate (rotation_matrix_ypr NumR 1 2 3)%R None; OpSetRef (RefIdx 5)]).
-  { repeat (apply Forall_cons;
-      [cbn [op_ok]; first [apply rotation_matrix_ypr_proper | (apply rot_z_proper; field) | exact I | lia]|]).
-    apply Forall_nil. }
+  { apply Forall_cons; [exact I|]. apply Forall_cons; [apply rot_z_proper; field|].
+    apply Forall_cons; [exact I|]. apply Forall_cons; [cbn [op_ok]; lia|].
+    apply Forall_cons; [exact I|]. apply Forall_cons; [cbn [op_ok]; lia|].
+    apply Forall_cons; [cbn [op_ok]; lia|]. apply Forall_cons; [cbn [op_ok]; lia|].
+    apply Forall_cons; [exact I|]. apply Forall_cons; [apply rotation_matrix_ypr_proper|].
+    apply Forall_cons; [cbn [op_ok]; lia|]. apply Forall_nil. }
   split; [exact Ha|]. split; [exact Hops|].
   apply (history_total 3 2 1%R (-2)%R (OriOne (0, 0, 1)%R) _ ltac:(lia) ltac:(lia) Ha Hops).
 Qed.
